@@ -18,7 +18,7 @@ k-th call of `resumeProducing` / `pauseProducing` runs the k-th script (re-entra
 into the transport), later calls do nothing.  Callbacks are passed around as a function
 `cb`, tied by `cbAt` (structural in the nesting depth).
 
-Ghost fields (`sentChunks`, `accChunks`, `lastCall`, `log`) record what the property talks
+Ghost fields (`sentChunks`, `accChunks`, `lastCall`, `regShut`, `log`) record what the property talks
 about; no transport decision reads them.
 -/
 namespace Twisted.Transport.FD
@@ -60,8 +60,9 @@ inductive Ev where
   | osErr (offered : Bytes)
   | halfClose
   /-- `connectionLost`; ghost payload: bytes accepted by `write` but not handed to the OS at that
-      moment, whether a pull producer is registered, whether the write side was already shut -/
-  | lost (r : Reason) (pending : Nat) (pull : Bool) (wd : Bool)
+      moment, whether a pull producer is registered, whether the write side was already shut, whether the
+      registered producer was registered when the write side was already shut (`regShut`) -/
+  | lost (r : Reason) (pending : Nat) (pull : Bool) (wd : Bool) (late : Bool)
   | raised                                  -- RuntimeError from registerProducer
   deriving DecidableEq, Repr
 
@@ -88,6 +89,7 @@ structure St where
   accChunks : List Bytes := []      -- newest first
   lastCall : Option Kind := none    -- last callback made to the *registered* producer since it registered
   starved : Bool := false           -- a script was skipped because the nesting depth ran out
+  regShut : Bool := false           -- the write side was already shut when the current producer registered
   log : List Ev := []               -- newest first; cleared by the driver after every operation
   deriving Repr
 
@@ -154,7 +156,7 @@ def connectionLost (cb : Cb) (s : St) : St :=
   stopWriting (stopReading s)
 
 def lostEv (r : Reason) (s : St) : Ev :=
-  Ev.lost r s.unsent.length (s.producer.isSome && !s.streaming) s.writeDisconnected
+  Ev.lost r s.unsent.length (s.producer.isSome && !s.streaming) s.writeDisconnected s.regShut
 
 /-- `loseConnection()` -/
 def loseConnection (cb : Cb) (s : St) : St :=
@@ -181,7 +183,8 @@ def registerProducer (cb : Cb) (pid : Nat) (streaming : Bool) (s : St) : St :=
   if s.producer.isSome then emit .raised s
   else if s.disconnected then callPid cb pid .stop s
   else
-    let s := { s with producer := some pid, streaming := streaming, lastCall := none }
+    let s := { s with producer := some pid, streaming := streaming, lastCall := none,
+                      regShut := s.writeDisconnected }
     maybePauseProducer cb (if !streaming then callProducer cb .resume s else s)
 
 inductive Ret where
